@@ -13,9 +13,11 @@ package reactx
 import (
 	"context"
 	"fmt"
+	"runtime"
 	"runtime/debug"
 	"sync"
 	"sync/atomic"
+	"time"
 
 	"github.com/samsarahq/thunder/reactive"
 	"github.com/samsarahq/thunder/verifharness/vlib"
@@ -41,6 +43,7 @@ const (
 	KDouble       = "double-cleanup"
 	KLeak         = "cleanup-never-ran"
 	KEarly        = "early-cleanup"
+	KInvalidDep   = "depends-on-invalidated-resource"
 	KUndecided    = "inconclusive"
 )
 
@@ -123,6 +126,62 @@ func (o *Out) Flatten() []ReadRec {
 	return out
 }
 
+// gate is a harness-level barrier in front of AddDependency: while armed,
+// readers that have already picked the cell's current resource park here; a
+// storm write swaps the resource and releases them at the very moment it calls
+// Invalidate on the resource they are about to register.
+type gate struct {
+	mu      sync.Mutex
+	armed   bool
+	waiting int
+	ch      chan struct{}
+}
+
+func (g *gate) park(max time.Duration) {
+	g.mu.Lock()
+	if !g.armed {
+		g.mu.Unlock()
+		return
+	}
+	g.waiting++
+	ch := g.ch
+	g.mu.Unlock()
+	t := time.NewTimer(max)
+	select {
+	case <-ch:
+	case <-t.C:
+		g.mu.Lock()
+		if g.ch == ch && g.armed {
+			g.waiting--
+		}
+		g.mu.Unlock()
+	}
+	t.Stop()
+}
+
+func (g *gate) arm() {
+	g.mu.Lock()
+	g.armed, g.waiting, g.ch = true, 0, make(chan struct{})
+	g.mu.Unlock()
+}
+
+func (g *gate) parked() int {
+	g.mu.Lock()
+	defer g.mu.Unlock()
+	return g.waiting
+}
+
+func (g *gate) release() int {
+	g.mu.Lock()
+	defer g.mu.Unlock()
+	if !g.armed {
+		return 0
+	}
+	g.armed = false
+	close(g.ch)
+	return g.waiting
+}
+
 // Cell is a versioned value guarded by a reactive.Resource. Readers register
 // the dependency and THEN read the version; writers bump the version and THEN
 // invalidate (replacing the resource) or strobe (keeping it).
@@ -133,6 +192,8 @@ type Cell struct {
 	mu  sync.Mutex
 	ver int64
 	cur *Tracked
+
+	gate gate
 }
 
 // RunRec is what the monitor keeps about one run of a rerunner.
@@ -416,6 +477,7 @@ func (c *Cell) Read(ctx context.Context, in *inst) ReadRec {
 	c.w.mu.Lock()
 	tr.added = true
 	c.w.mu.Unlock()
+	c.gate.park(2 * time.Millisecond)
 	reactive.AddDependency(ctx, tr.Res, nil)
 	c.w.hold(in, tr)
 	v := atomic.LoadInt64(&c.ver)
@@ -506,6 +568,45 @@ func (c *Cell) Write(style string) {
 	w.bump()
 }
 
+// StormWrite is an invalidate-style write aimed at registrations in progress:
+// it arms the cell's gate, waits (pacing only) until minParked readers have
+// picked the current resource and parked in front of AddDependency, bumps the
+// version, swaps the resource, and then calls Invalidate on the old resource
+// and opens the gate at the same moment (order by variant).
+func (c *Cell) StormWrite(minParked int, maxWait time.Duration, variant int) {
+	w := c.w
+	c.gate.arm()
+	dl := time.Now().Add(maxWait)
+	for c.gate.parked() < minParked && time.Now().Before(dl) {
+		time.Sleep(20 * time.Microsecond)
+	}
+	nt := w.newTracked(c.Idx, nil)
+	c.mu.Lock()
+	v := atomic.AddInt64(&c.ver, 1)
+	old := c.cur
+	c.cur = nt
+	c.mu.Unlock()
+	w.noteWrite(c, old, WInvalidate, v)
+	var n int
+	switch variant % 3 {
+	case 0:
+		old.Res.Invalidate()
+		n = c.gate.release()
+	case 1:
+		n = c.gate.release()
+		old.Res.Invalidate()
+	default:
+		old.Res.Invalidate()
+		runtime.Gosched()
+		n = c.gate.release()
+	}
+	w.mu.Lock()
+	w.Stats["storm_writes"]++
+	w.Stats["registrations_released_with_an_invalidate"] += n
+	w.mu.Unlock()
+	w.bump()
+}
+
 func (w *World) noteWrite(c *Cell, tr *Tracked, style string, v int64) {
 	w.mu.Lock()
 	if style == WStrobe {
@@ -570,6 +671,19 @@ func (rr *RR) Purge() bool {
 }
 
 func (rr *RR) liveLocked() bool { return !rr.stopCalled && !rr.fatal }
+
+// invalidDepsLocked lists cell resources rec registered (directly or through
+// cached children) on which the harness has called Invalidate: by C04 such a
+// run cannot stay the last successful run of a live rerunner.
+func (w *World) invalidDepsLocked(rec *RunRec) []map[string]interface{} {
+	var out []map[string]interface{}
+	for _, rd := range rec.Reads {
+		if tr := w.tracked[rd.Res]; tr.invalidated {
+			out = append(out, map[string]interface{}{"cell": rd.Cell, "res": rd.Res, "read": rd.Ver})
+		}
+	}
+	return out
+}
 
 // staleLocked lists reads of rec that are not the current version.
 func (w *World) staleLocked(rec *RunRec) []map[string]interface{} {
